@@ -294,3 +294,94 @@ Proof.
   - destruct (Hin g H) as [_ X]. unfold fbtv_wanted, group_wanted in X.
     apply andb_true_iff in X. destruct X as [X _]. apply andb_true_iff in X. tauto.
 Qed.
+
+(* ================================================================== at most one service has the requested uuid *)
+Lemma bytes_eqb_eq a b : bytes_eqb a b = true -> a = b.
+Proof.
+  revert b; induction a as [|x a IH]; intros [|y b] H; cbn [bytes_eqb] in H; try discriminate H; [reflexivity|].
+  apply andb_true_iff in H. destruct H as [H1 H2]. apply N.eqb_eq in H1. subst y. f_equal. apply IH. exact H2.
+Qed.
+
+Lemma uuid_eqb_eq a b : uuid_eqb a b = true -> a = b.
+Proof.
+  destruct a, b; cbn [uuid_eqb]; intros H; try discriminate H.
+  - apply N.eqb_eq in H. subst. reflexivity.
+  - apply bytes_eqb_eq in H. subst. reflexivity.
+Qed.
+
+Lemma uuid_eqb_refl a : uuid_eqb a a = true.
+Proof.
+  destruct a; cbn [uuid_eqb]; [apply N.eqb_refl|]. induction bytes as [|x t IH]; cbn [bytes_eqb]; [reflexivity|].
+  rewrite N.eqb_refl. exact IH.
+Qed.
+
+Lemma in_list_false u l : in_list u l = false -> forall x, In x l -> uuid_eqb u x = false.
+Proof.
+  unfold in_list. induction l as [|y t IH]; intros H x Hx; [destruct Hx|].
+  cbn [index_of] in H. destruct (uuid_eqb u y) eqn:E.
+  - unfold len in H. cbn [length] in H. apply negb_false_iff, N.eqb_eq in H. lia.
+  - destruct Hx as [<-|Hx]; [exact E|]. apply IH; auto.
+    apply negb_false_iff, N.eqb_eq in H. apply negb_false_iff, N.eqb_eq. unfold len in *. cbn [length] in H. lia.
+Qed.
+
+Lemma unique_match (ss : list service_decl) (U : uuid) :
+  uuids_unique (map s_uuid ss) = true ->
+  (length (filter (fun s => uuid_eqb (s_uuid s) U) ss) <= 1)%nat.
+Proof.
+  induction ss as [|s t IH]; intros Hu; cbn [filter length]; [lia|].
+  cbn [map uuids_unique] in Hu. apply andb_true_iff in Hu. destruct Hu as [H1 H2]. apply negb_true_iff in H1.
+  destruct (uuid_eqb (s_uuid s) U) eqn:E; [|apply IH; exact H2].
+  apply uuid_eqb_eq in E. subst U.
+  rewrite (filter_all_false _ t); [cbn [length]; lia|].
+  intros x Hx. destruct (uuid_eqb (s_uuid x) (s_uuid s)) eqn:E2; [|reflexivity].
+  apply uuid_eqb_eq in E2. pose proof (in_list_false _ _ H1 (s_uuid x) (in_map s_uuid _ _ Hx)) as X.
+  rewrite E2, uuid_eqb_refl in X. discriminate X.
+Qed.
+
+Lemma groups_services ss hs : map snd (svc_groups ss hs) = ss.
+Proof. revert hs; induction ss as [|s t IH]; intros hs; cbn [svc_groups map snd]; [reflexivity|]. f_equal. apply IH. Qed.
+
+Lemma filter_map_snd (f : service_decl -> bool) (G : list (N * N * service_decl)) :
+  length (filter (fun g => f (snd g)) G) = length (filter f (map snd G)).
+Proof. induction G as [|g t IH]; cbn [filter map]; [reflexivity|]. destruct (f (snd g)); cbn [length]; rewrite IH; reflexivity. Qed.
+
+Lemma fbtv_walk_at_most_one c lo hi value avail :
+  wf c -> forallb byte_ok value = true -> len (fbtv_walk (groups c) lo hi value avail) <= 1.
+Proof.
+  intros Hw Hv. destruct (fbtv_walk_prefix (groups c) lo hi value avail) as (rest & W1 & _).
+  assert (Hle : (length (filter (fbtv_wanted lo hi value) (groups c)) <= 1)%nat).
+  { assert (Hu : uuids_unique (map s_uuid (services c)) = true).
+    { unfold wf, wf_b in Hw. repeat (apply andb_true_iff in Hw; destruct Hw as [Hw ?]). assumption. }
+    pose proof (unique_match (services c) (uuid_of_bytes value) Hu) as X.
+    rewrite <- (groups_services (services c) (assign c)) in X. fold (groups c) in X. rewrite <- filter_map_snd in X.
+    eapply Nat.le_trans; [|exact X]. clear X.
+    assert (E : filter (fbtv_wanted lo hi value) (groups c)
+                = filter (fun g => group_wanted lo hi g) (filter (fun g => uuid_eqb (s_uuid (snd g)) (uuid_of_bytes value)) (groups c))).
+    { rewrite filter_filter. apply filter_ext_in'. intros g Hg. unfold fbtv_wanted.
+      rewrite value_is_uuid by (auto; eapply services_uuid_ok; eauto). apply andb_comm. }
+    rewrite E. apply filter_len_le. }
+  rewrite W1, app_length in Hle. unfold len. lia.
+Qed.
+
+(* the Find By Type Value response without the size premise *)
+Theorem find_by_type_value_spec' c st cid pdu lo hi value b out_size r :
+  wf c -> no_includes c -> forallb byte_ok value = true ->
+  rd pdu 0 = Some 6 -> (len pdu = 9 \/ len pdu = 23) ->
+  rd16 pdu 1 = Some lo -> rd16 pdu 3 = Some hi -> rd16 pdu 5 = Some uuid_primary_service ->
+  slice pdu 7 (len pdu) = Some value ->
+  1 <= lo -> lo <= hi -> 23 <= out_size -> out_size <= len b ->
+  handle_find_by_type_value c st cid pdu b out_size = Some r ->
+  match fbtv_walk (groups c) lo hi value (out_size - 1) with
+  | [] => snd r = 5 /\ seg 0 5 (fst r) = 1 :: 6 :: le16 lo ++ [10]
+  | g :: W => W = [] /\ snd r = 5 /\ 5 <= len (fst r) /\ seg 0 5 (fst r) = 7 :: genc4 g
+  end.
+Proof.
+  intros Hw Hn Hv Hop Hlen Hlo' Hhi' Hty Hsl Hlo Hhi Ho Hb H.
+  pose proof (fbtv_walk_at_most_one c lo hi value (out_size - 1) Hw Hv) as H1.
+  apply (find_by_type_value_spec c st cid pdu lo hi value b out_size r) in H; auto.
+  unfold fbtv_response in H. destruct (fbtv_walk (groups c) lo hi value (out_size - 1)) as [|g W]; [exact H|].
+  assert (W = []) by (destruct W; [reflexivity|unfold len in H1; cbn [length] in H1; lia]). subst W.
+  destruct H as [H2 H3]. change (4 * len [g]) with 4 in *. change (4 mod 256) with 4 in H2.
+  destruct (H3 ltac:(lia)) as (H4 & H5 & H6). rewrite H2 in *. cbn [flat_map] in H6. rewrite app_nil_r in H6.
+  repeat split; auto.
+Qed.
